@@ -108,7 +108,11 @@ type tvRow struct {
 	Result int     `json:"result"`
 	Dups   int     `json:"duplicates"`
 	Err    string  `json:"err"`
+	// TimedOut: the operation did not return within opTimeout although the graph is small
+	TimedOut bool `json:"timed_out"`
 }
+
+const opTimeout = 20 * time.Second
 
 func traversalDriver(args []string) error {
 	if len(args) != 2 {
@@ -211,11 +215,32 @@ func traversalDriver(args []string) error {
 				continue
 			}
 			t0 := time.Now()
-			res, dups, err := op.run()
+			type outcome struct {
+				res, dups int
+				err       error
+			}
+			ch := make(chan outcome, 1)
+			go func() {
+				r, d, e := op.run()
+				ch <- outcome{r, d, e}
+			}()
+			var o outcome
+			timedOut := false
+			select {
+			case o = <-ch:
+			case <-time.After(opTimeout):
+				// an operation that the specified traversal finishes in microseconds is still running: work that bypasses the
+				// counted loops. It cannot be stopped; larger graphs are not attempted for this operation.
+				timedOut = true
+			}
 			row := tvRow{Graph: g.name, Op: op.name, V: v, E: e, Work: verifhook.Counters()[op.counter], Bound: op.bound,
-				Millis: float64(time.Since(t0).Microseconds()) / 1000, Result: res, Dups: dups}
-			if err != nil {
-				row.Err = err.Error()
+				Millis: float64(time.Since(t0).Microseconds()) / 1000, Result: o.res, Dups: o.dups}
+			if o.err != nil {
+				row.Err = o.err.Error()
+			}
+			if timedOut {
+				row.TimedOut = true
+				blown[op.name] = true
 			}
 			rows = append(rows, row)
 			if row.Work > 64*op.bound {
